@@ -25,9 +25,14 @@ def setup(root):
     return Path(root) / 'cache'
 
 
+DIFF = [False]      # also ask for the incremental parser (cache=True, diff_cache=True): it looks at the memory entry the load left behind
+
+
 def parse_cached(g, path, cdir):
     with warnings.catch_warnings():
         warnings.simplefilter('ignore')
+        if DIFF[0]:
+            return g.parse(path=path, cache=True, diff_cache=True, cache_path=cdir)
         return g.parse(path=path, cache=True, cache_path=cdir)
 
 
@@ -123,7 +128,12 @@ def run(ctx, b, drv):
             r = gens.rng(ctx.seed, 'c17-corrupt', mi)
             corrupt = [('empty-file', b''), ('garbage', bytes(r.randrange(256) for _ in range(200))),
                        ('zero-filled', b'\0' * n), ('pickle-of-other-object', pickle.dumps({'a': 1})),
-                       ('pickle-of-int', pickle.dumps(42)), ('text', b'not a pickle\n')]
+                       ('pickle-of-int', pickle.dumps(42)), ('text', b'not a pickle\n'),
+                       ('pickle-of-none', b'N.'), ('pickle-of-str', pickle.dumps('x = 1\n')), ('pickle-of-list', pickle.dumps([1, 2])),
+                       ('pickle-of-tuple', pickle.dumps((None, [], 0.0))), ('pickle-of-bool', pickle.dumps(True))]
+            # (a well-formed pickle of a _NodeCacheItem with senseless fields is NOT in the list: no crash, full disk or concurrent writer of parso
+            #  produces one, and the unchanged code does not promise anything about it - an earlier version of this list demanded that, a false alarm)
+            corrupt = corrupt + [(nm + '+diff_cache', bs) for nm, bs in corrupt]
             for _ in range(40 if ctx.tier == 'quick' else 400):
                 pos = r.randrange(n)
                 bs = bytearray(orig)
@@ -136,6 +146,7 @@ def run(ctx, b, drv):
             for name, bs in corrupt:
                 with open(ppath, 'wb') as f:
                     f.write(bs)
+                DIFF[0] = name.endswith('+diff_cache')
                 ctx.nontrivial((name, mi, bs[:40]))
                 if name in ('bit-flip', 'partially-overwritten'):
                     # may by chance still unpickle to a well-formed entry: only failures to parse count
@@ -152,6 +163,7 @@ def run(ctx, b, drv):
                         f.write(orig)
                 else:
                     check_state(ctx, g, path, code, cdir, ppath, name, fresh_sig, {})
+            DIFF[0] = False
             # directory states
             vdir = os.path.dirname(ppath)
             for junk in ('x.pkl.tmp', 'tmpabcd', os.path.basename(ppath) + '.tmp', '.lock'):
